@@ -173,6 +173,9 @@ cfg_k8s! {
 }
 // Utility functions for Sentinel.
 pub mod utils;
+/// Hooks for external verification tooling; absent unless the `verif_hooks` feature is on.
+#[cfg(feature = "verif_hooks")]
+pub mod verif;
 
 // re-export precludes
 pub use crate::core::*;
